@@ -11,9 +11,9 @@ import shutil
 
 import numpy as np
 
-from .. import core, parsers
+from .. import argguard, core, parsers
 
-PROPS = ["C11_DiskLayout", "C11_SpellingIrrelevant", "C11_RoundTrip", "C11_ReadLayout", "C11_ConvertPreserves", "C11_ConvertNegates",
+PROPS = ["C11_DiskLayout", "C11_SpellingIrrelevant", "C11_ArgumentsKept", "C11_RoundTrip", "C11_ReadLayout", "C11_ConvertPreserves", "C11_ConvertNegates",
          "C11_NoClobber", "C11_DefaultNames"]
 INVS = ["TypeOK", "C11_NegInvolution"]
 NP = {"f64": np.float64, "f32": np.float32, "i16": np.int16, "i8": np.int8}
@@ -52,11 +52,29 @@ def spelled(dt, sp, variant=0):
     return SPELL[dt][sp]
 
 
-def cfg(init, bases, dt, depth, mode, props=True, sps=("type",)):
+ALL_AF = ["c", "f", "view", "ro"]
+
+
+def stored(arr, af):
+    """the same map in another storage form: C-ordered, Fortran-ordered, a non-contiguous view of a larger array,
+    read-only"""
+    if af == "f":
+        return np.asfortranarray(arr)
+    if af == "view":
+        big = np.zeros(tuple(2 * n + 1 for n in arr.shape), dtype=arr.dtype)
+        big[1::2, 1::2, 1::2] = arr
+        return big[1::2, 1::2, 1::2]
+    out = np.ascontiguousarray(arr).copy()
+    if af == "ro":
+        out.setflags(write=False)
+    return out
+
+
+def cfg(init, bases, dt, depth, mode, props=True, sps=("type",), afs=("c",)):
     """bases: list of file stems"""
     lines = ["SPECIFICATION Spec", "CONSTANTS", " InitArrays <- %s" % init,
              " Bases = {%s}" % ", ".join('"%s"' % b for b in bases), " Acts <- AllActs",
-             " TrSet = {TRUE, FALSE}", " DtSet <- %s" % dt, " SpSet = {%s}" % ", ".join('"%s"' % x for x in sps), " OwSet = {TRUE, FALSE}", " MaxDepth = %d" % depth,
+             " TrSet = {TRUE, FALSE}", " DtSet <- %s" % dt, " SpSet = {%s}" % ", ".join('"%s"' % x for x in sps), " AfSet = {%s}" % ", ".join('"%s"' % x for x in afs), " OwSet = {TRUE, FALSE}", " MaxDepth = %d" % depth,
              ' EmitMode = "%s"' % mode, "INVARIANT TypeOK"]
     if props:
         lines += ["INVARIANT C11_NegInvolution"] + ["PROPERTY %s" % p for p in PROPS]
@@ -82,7 +100,9 @@ def token_tables(vseed, ntok):
     for t in range(1, ntok + 1):
         while True:
             u = rng.random()
-            if u < 0.6:
+            if u < 0.08:
+                v = rng.choice([1e-30, -1e-30, 1e-9, -1e-9, 3.0e38, -3.0e38, 1.0e-40, 1.0 + 2.0 ** -30]) * rng.uniform(1.0, 1.1)
+            elif u < 0.6:
                 v = rng.uniform(-50.0, 50.0)
             elif u < 0.8:
                 v = rng.choice([-1, 1]) * (16777217.0 + 2.0 * rng.randint(0, 10 ** 6))
@@ -194,7 +214,7 @@ def op_sig(op):
     f = op.get("target") or op.get("file")
     if f:
         sig["ext"] = f.rsplit(".", 1)[-1]
-    for k in ("tr", "dt", "sp", "inv", "ow"):
+    for k in ("tr", "dt", "sp", "af", "inv", "ow"):
         if k in op:
             sig[k] = op[k]
     return sig
@@ -279,7 +299,14 @@ def compare_mem(ctx, arr, mem, tabs, op, case, sig):
 def step(ctx, op, post, arr, dirpath, tabs, variant, case):
     """One call + comparison.  Returns (ok, new in-memory array)."""
     sig = op_sig(op)
-    ret, err = core.call_guarded(exec_op, op, arr, dirpath, variant)
+    handed = stored(arr, op.get("af", "c")) if op["name"] == "write" else arr
+    guard = argguard.Guard(array=handed)
+    ret, err = core.call_guarded(exec_op, op, handed, dirpath, variant)
+    why = guard.changed()
+    if why:
+        ctx.fail("C11_ArgumentsKept", "%s changed the array it was given - %s" % (op["name"], why), case,
+                 dict(sig, argument_modified=True))
+        return False, arr
     if post["res"] == "refused":
         if err is None:
             ctx.fail("C11_NoClobber", "%s with overwrite=False on an existing target did not refuse" % op["name"], case, sig)
@@ -307,6 +334,64 @@ def recheck_held(ctx, held, now, case):
     return True
 
 
+def aside_calls(dirpath, variant):
+    """Dimension 'call history': unrelated public calls of the module, with non-default options, on another map of
+    another shape; their files are removed again."""
+    from cryocat import cryomap
+    side = os.path.join(dirpath, "zz_aside")
+    a = (np.arange(2 * 3 * (2 + variant % 3), dtype=np.float32).reshape(2, 3, 2 + variant % 3) - 4.5)
+    try:
+        cryomap.write(a, side + ".em", transpose=False, data_type=np.int16)
+        cryomap.read(side + ".em", transpose=False, data_type=np.float64)
+        cryomap.em2mrc(side + ".em", invert=True)
+        cryomap.invert_contrast(side + ".mrc", output_name=side + ".rec")
+        cryomap.mrc2em(side + ".mrc", output_name=side + "2.em", overwrite=True)
+    finally:
+        for f in os.listdir(dirpath):
+            if f.startswith("zz_aside"):
+                os.remove(os.path.join(dirpath, f))
+
+
+def second_write(ctx, tr, arr, dirpath, tabs, variant, case):
+    """Dimension 'argument reuse': the very same array object is written a second time, with the same options, to a
+    file of the other format; the content must be the document TLC computed for the first file."""
+    from cryocat import cryomap
+    op = tr["op"]
+    doc = disk_of(tr["post"])[op["file"]]
+    ext2 = "mrc" if op["file"].endswith(".em") else "em"
+    name2 = "zz_again." + ext2
+    handed = stored(arr, op.get("af", "c"))
+    guard = argguard.Guard(array=handed)
+    kw = {"transpose": op["tr"]}
+    if op["dt"] != "none":
+        kw["data_type"] = spelled(op["dt"], op["sp"], variant)
+    sig = dict(op_sig(op), second_call=True)
+    path2 = os.path.join(dirpath, name2)
+    try:
+        _, err = core.call_guarded(cryomap.write, handed, os.path.join(dirpath, "zz_first." + ext2), **kw)
+        if err is None:
+            _, err = core.call_guarded(cryomap.write, handed, path2, **kw)
+        if err is not None:
+            ctx.fail("call_raises", "second write of the same array object: %s" % err, case, sig)
+            return
+        why = guard.changed()
+        if why:
+            ctx.fail("C11_ArgumentsKept", "the second write changed the array it was given - %s" % why, case, sig)
+            return
+        got = parsers.read_map(path2)
+        exp = [interp(c, tabs) for c in doc["data"]]
+        if [got["nx"], got["ny"], got["nz"]] != list(doc["dims"]) or MODE_OF.get(got["dtype"]) != doc["mode"] or \
+                any(not g == e for g, e in zip(got["data"], exp)):
+            ctx.fail("C11_DiskLayout", "writing the same array object again gives another document (dims %s type %s)" % (
+                [got["nx"], got["ny"], got["nz"]], got["dtype"]), case, sig)
+    except parsers.FormatError as e:
+        ctx.fail("C11_DiskLayout", "second write of the same array object: %s" % e, case, sig)
+    finally:
+        for f in os.listdir(dirpath):
+            if f.startswith("zz_again") or f.startswith("zz_first"):
+                os.remove(os.path.join(dirpath, f))
+
+
 def fresh_dir(ctx, tag):
     d = os.path.join(ctx.sub("maps"), "%s_%d" % (tag, os.getpid()))
     shutil.rmtree(d, ignore_errors=True)
@@ -320,7 +405,15 @@ def run_transition(ctx, tr, variant, vseed):
     d = fresh_dir(ctx, "tr")
     build_disk(d, disk_of(tr["pre"]), tabs)
     arr = build_array(tr["pre"]["mem"], tabs)
+    if variant % 3 == 1:
+        # earlier, unrelated calls of the module (inputs inside the quantifier: an exception there is a violation too)
+        _, err = core.call_guarded(aside_calls, d, variant)
+        if err is not None:
+            ctx.fail("call_raises", "interleaved write / read / em2mrc / invert_contrast / mrc2em sequence: %s" % err, case,
+                     {"op": "aside"})
     ok, ret = step(ctx, tr["op"], tr["post"], arr, d, tabs, variant, case)
+    if ok and tr["op"]["name"] == "write" and tr["post"]["res"] == "ok" and variant % 2 == 0:
+        second_write(ctx, tr, arr, d, tabs, variant, case)
     if ok and tr["op"]["name"] in ("read", "invert") and isinstance(ret, np.ndarray):
         # a second, unjudged call on a same-shaped map with other voxels; then the first result is inspected again
         from cryocat import cryomap
@@ -359,7 +452,7 @@ def run_behaviour(ctx, hist, variant, vseed):
 DT_NAMES = ["f32", "f64", "i16", "i8"]
 
 
-def gen_float_case(rng, idx, smax):
+def gen_float_case(rng, idx, smax, force_shape=None):
     shape = [rng.randint(1, smax) for _ in range(3)]
     if rng.random() < 0.25:
         shape[rng.randrange(3)] = rng.choice([1, 2, smax])
@@ -369,7 +462,10 @@ def gen_float_case(rng, idx, smax):
     stem, stem2 = rng.sample(STEMS, 2)
     dt = rng.choice(["none", "none"] + DT_NAMES)
     sp = "none" if dt == "none" else rng.choice([x for x in ALL_SP if x != "builtin" or dt == "f64"])
-    return {"kind": "float", "id": idx, "shape": shape, "dtype": dtype, "dt": dt, "sp": sp, "ext": rng.choice(["mrc", "rec", "em"]),
+    if force_shape is not None:
+        shape = list(force_shape)
+    return {"kind": "float", "id": idx, "shape": shape, "dtype": dtype, "dt": dt, "sp": sp, "af": rng.choice(ALL_AF),
+            "bg": rng.choice([3.0, 3.0, 0.0]), "ext": rng.choice(["mrc", "rec", "em"]),
             "tr": rng.random() < 0.75, "inv": rng.random() < 0.5, "explicit_out": rng.random() < 0.5,
             "refuse_api": rng.choice(["write", "convert"]), "mseed": rng.randrange(1 << 30),
             "stem": stem, "stem2": stem2}
@@ -407,16 +503,19 @@ def run_float(ctx, cases):
             mvals = [float(v) for v in rng.sample(pool, nm)]
         else:
             mvals = []
-            seen = {3.0, -3.0}
+            seen = {3.0, -3.0, 0.0}
             while len(mvals) < nm:
                 v = rng.uniform(-1000, 1000)
+                if rng.random() < 0.1:              # tiny / huge magnitudes, float32 subnormals
+                    v = rng.choice([1e-30, -1e-30, 1e-9, -1e-9, 3.0e38, -3.0e38, 1.0e-40]) * rng.uniform(1.0, 1.1)
                 if case["dtype"] == "f32":
                     v = parsers.f32(v)
                 img = parsers.f32(v)
                 if img not in seen and -img not in seen and img != 0.0:
                     seen.add(img)
                     mvals.append(v)
-        arr = np.full(shape, 3.0, dtype=np.float64)
+        bg = float(case.get("bg", 3.0))             # background value: 3, or 0 (an all-zero map but for the markers)
+        arr = np.full(shape, bg, dtype=np.float64)
         pos = []
         for c, v in zip(cells, mvals):
             p = (c // (shape[1] * shape[2]), (c // shape[2]) % shape[1], c % shape[2])
@@ -438,11 +537,15 @@ def run_float(ctx, cases):
             kw["transpose"] = False
         if case["dt"] != "none":
             kw["data_type"] = spelled(case["dt"], case.get("sp", "type"), case["mseed"])
-        _, err = core.call_guarded(cryomap.write, arr, path, **kw)
+        af = case.get("af", "c")
+        handed = stored(arr, af)
+        guard = argguard.Guard(array=handed)
+        _, err = core.call_guarded(cryomap.write, handed, path, **kw)
         if err is not None:
             fail_call("write", err)
         else:
-            ev = {"name": "write", "tr": case["tr"], "dtype": case["dtype"], "dt": case["dt"],
+            ev = {"name": "write", "tr": case["tr"], "dtype": case["dtype"], "dt": case["dt"], "af": af,
+                  "arg_kept": guard.changed() is None,
                   "sp": case.get("sp", "none" if case["dt"] == "none" else "type"), "shape": list(shape),
                   "valid": True, "hdr": [0, 0, 0], "mode": "none", "n": 0, "bg_ok": False, "markers": []}
             doc = None
@@ -456,7 +559,7 @@ def run_float(ctx, cases):
                 mm = marker_map(doc["data"], on_disk)
                 ev.update(hdr=[doc["nx"], doc["ny"], doc["nz"]], mode=MODE_OF.get(doc["dtype"], doc["dtype"]),
                           n=len(doc["data"]),
-                          bg_ok=sum(1 for x in doc["data"] if x == 3.0) == len(doc["data"]) - nm,
+                          bg_ok=sum(1 for x in doc["data"] if x == bg) == len(doc["data"]) - nm,
                           markers=[{"p": list(p), "off": mm[v][0], "cnt": mm[v][1]} for p, v in zip(pos, on_disk)])
             events.append(ev)
             # -- read back with the same flag
@@ -475,7 +578,7 @@ def run_float(ctx, cases):
                     shp = list(back.shape) if isinstance(back, np.ndarray) else []
                     events.append({"name": "read", "tr": case["tr"], "hdr": [doc["nx"], doc["ny"], doc["nz"]],
                                    "shape": list(shape), "shape_out": shp,
-                                   "bg_ok": bool(isinstance(back, np.ndarray) and int((back == 3.0).sum()) == n - nm),
+                                   "bg_ok": bool(isinstance(back, np.ndarray) and int((back == bg).sum()) == n - nm),
                                    "markers": ms})
             # -- conversion (em <-> mrc only)
             if doc is not None and case["ext"] in ("em", "mrc"):
@@ -501,7 +604,7 @@ def run_float(ctx, cases):
                             md = marker_map(dst["data"], [sgn * v for v in on_disk])
                             ev.update(hdr_dst=[dst["nx"], dst["ny"], dst["nz"]], mode_dst=MODE_OF.get(dst["dtype"], dst["dtype"]),
                                       fmt_dst=dst["fmt"],
-                                      bg_ok=sum(1 for x in dst["data"] if x == sgn * 3.0) == len(dst["data"]) - nm,
+                                      bg_ok=sum(1 for x in dst["data"] if x == sgn * bg) == len(dst["data"]) - nm,
                                       markers=[{"off_src": mm[v][0], "off_dst": md[sgn * v][0], "cnt": md[sgn * v][1]}
                                                for v in on_disk])
                             if dst["fmt"] == "mrc" and (dst["mapc"], dst["mapr"], dst["maps"]) != (1, 2, 3):
@@ -612,15 +715,20 @@ def run(ctx):
     one, one3, two = stems[:1], stems[1:2], stems[2:4]
     # spellings of the data_type option: "builtin" (float) always, the others drawn by the seed
     others = [x for x in ALL_SP if x != "builtin"]
-    sp_tr = [rng.choice(others), "builtin"] if ctx.quick else ALL_SP
-    sp_sim = rng.sample(others, 2) + ["builtin"]
+    sp_tr = [rng.choice(others), "builtin"] if ctx.quick else rng.sample(others, 3) + ["builtin"]
+    sp_sim = rng.sample(others, 1 if ctx.quick else 2) + ["builtin"]
+    af_tr = [rng.choice(ALL_AF)] if ctx.quick else rng.sample(ALL_AF, 2)
+    af_tr3 = rng.sample(ALL_AF, 2)
+    af_sim = rng.sample(ALL_AF, 1 if ctx.quick else 2)
+    ctx.extra["array_forms"] = {"tr": af_tr, "tr3": af_tr3, "sim": af_sim, "float": ALL_AF}
     ctx.extra["data_type_spellings"] = {"tr": sp_tr, "sim": sp_sim, "float": ALL_SP}
     ctx.extra["file_stems"] = {"tr": one, "tr3": one3, "deep_sim": two}
     ctx.extra["tr_shapes"] = tr_shapes
     ctx.extra["sim_shapes"] = sim_shapes
 
     if not only or "small" in only:
-        ctx.tlc("MC_MapIO", cfg(ctx.pick("Small9", "Small27"), one, "AllDt", 2, "none", sps=ctx.pick(("type", "name", "builtin"), ALL_SP)), name="small", env=env,
+        ctx.tlc("MC_MapIO", cfg(ctx.pick("Small9", "Small27"), one, "AllDt", 2, "none", sps=ctx.pick(("name", "builtin"), ALL_SP),
+                                afs=ctx.pick(("view",), ("f", "ro"))), name="small", env=env,
                 workers=4)
         ctx.exhaustive["L1_small_depth2"] = True
         dd = ctx.pick(3, 4)
@@ -628,9 +736,9 @@ def run(ctx):
         ctx.exhaustive["L1_deep_depth%d" % dd] = True
 
     if not only or "tr" in only:
-        res = ctx.tlc("MC_MapIO", cfg("TrInit", one, "AllDt", 2, "tr", sps=sp_tr), name="tr", env=env, workers=1)
+        res = ctx.tlc("MC_MapIO", cfg("TrInit", one, "AllDt", 2, "tr", sps=sp_tr, afs=af_tr), name="tr", env=env, workers=1)
         # depth 3 with the default data_type: two files exist, so conversions meet an existing target (refusals)
-        res3 = ctx.tlc("MC_MapIO", cfg("Tr3Init", one3, "NoDt", 3, "tr"), name="tr3", env=env, workers=1)
+        res3 = ctx.tlc("MC_MapIO", cfg("Tr3Init", one3, "NoDt", 3, "tr", afs=af_tr3), name="tr3", env=env, workers=1)
         trs = res.records + res3.records
         if len(trs) < 2000:
             raise core.MachineryError("tr run emitted only %d transitions" % len(trs))
@@ -665,7 +773,7 @@ def run(ctx):
 
     if not only or "sim" in only:
         nsim = ctx.pick(20, 400)
-        res = ctx.tlc("MC_MapIO", cfg("SimInit", two, "AllDt", 8, "hist", props=False, sps=sp_sim), name="sim", env=env,
+        res = ctx.tlc("MC_MapIO", cfg("SimInit", two, "AllDt", 8, "hist", props=False, sps=sp_sim, afs=af_sim), name="sim", env=env,
                       simulate=nsim, depth=10, seed=ctx.seed + 1, workers=1)
         seen = set()
         nb = 0
@@ -685,4 +793,9 @@ def run(ctx):
         nfl = ctx.pick(80, 1200)
         cases = [gen_float_case(rng, i + 1, 48 if (ctx.quick and i % 4 == 0) or (not ctx.quick and i % 2 == 0) else 16)
                  for i in range(nfl)]
+        # exhaustive small sweep: every shape of (1..4)^3 (thorough (1..6)^3), lengths 1 and 2 on every axis included
+        top = ctx.pick(4, 6)
+        for sh in [(a, b, c) for a in range(1, top + 1) for b in range(1, top + 1) for c in range(1, top + 1)]:
+            cases.append(gen_float_case(rng, len(cases) + 1, 4, force_shape=sh))
+        ctx.extra["shape_sweep"] = "every shape of (1..%d)^3" % top
         run_float(ctx, cases)
